@@ -346,9 +346,17 @@ def g_outcome(o):
     return f"(Raise {o[1]})"
 
 
-def fuel_for(cg, n):
+FUEL_CAP = 4500
+
+
+def fuel_uncapped(cg, n):
+    """Coq: EarleyHarnessFuel.harness_fuel (C10_harness_fuel_ok: >= fuel_bound (cgram cg _) m for m <= n)"""
     items = sum(len(a) + 1 + sum(len(s) for s in a) for alts in cg.values() for a in alts) + 4
-    return min(4500, items * (n + 2) + 20)
+    return items * (n + 2) + 20
+
+
+def fuel_for(cg, n):
+    return min(FUEL_CAP, fuel_uncapped(cg, n))
 
 
 # ----------------------------------------------------------------------------------------------
@@ -494,11 +502,12 @@ def run(run):
     FX = f"{g_bool(flags['fxA'])} {g_bool(flags['fxB'])}"
 
     grammars = build_cases(run, rng, thorough)
-    gdefs, smeta = [], []
+    gdefs, smeta, guard_case = [], [], []
     hist = {"accept": 0, "SyntaxErr": 0, "other_exn": 0, "ambiguous(>1 tree)": 0, "eps_grammars": 0,
             "multistart_grammars": 0, "recstart_grammars": 0, "solver_mode": 0, "parse_on_mode": 0,
             "list_grammars": 0, "corpus_grammars": 0, "trees_checked_yield": 0,
-            "solver_nt_skipped_cyclic_after_override": 0}
+            "solver_nt_skipped_cyclic_after_override": 0, "fuel_capped_grammars": 0,
+            "theorem_guard_evaluated": 0, "theorem_guard_false_cyclic_or_capped": 0}
     maxlen_seen = 0
     prop_failures = []
     for gi, (g, opts) in enumerate(grammars):
@@ -578,8 +587,14 @@ def run(run):
                                       "impl": [o[0], [jt(t) for t in o[1]] if o[0] == "ok" else o[1]],
                                       "why": why, "_cg": cg, "_o": o})
         n_max = max(len(w) for w in words)
+        hist["fuel_capped_grammars"] += fuel_uncapped(cg, n_max) > FUEL_CAP
         gdefs.append((g_grammar(cg), fuel_for(cg, n_max), min(7, len(cg) + 3), lits))
         smeta.append((g, cg, cases))
+        gc = {}
+        for ci, (mode, nt, w, o) in enumerate(cases):
+            if (mode, nt) not in gc or len(w) > len(cases[gc[(mode, nt)]][2]):
+                gc[(mode, nt)] = ci
+        guard_case.append(gc)
         if gi in (0, 2, 21):
             k = next((c for c in cases if c[3][0] == "ok" and len(c[2]) >= 2), cases[0])
             run.sample({"grammar": g, "mode": ["parse", "parse_on", "ISLaSolver.parse"][k[0]], "nonterminal": k[1],
@@ -602,6 +617,11 @@ def run(run):
             cases = smeta[gi][2]
             for ci, (mode, nt, w, o) in enumerate(cases):
                 kinds = [0, 1] + ([2] if mode == 0 and len(w) <= 2 else []) + ([3] if mode == 0 else [])
+                # kind 4: the hypotheses of C10_parse_complete / C10_parse_total that depend on the case
+                # (acyclicb, fuel_bound <= FUEL) evaluated in Coq on the longest input of every
+                # (entry point, nonterminal) of the grammar
+                if ci == guard_case[gi].get((mode, nt)):
+                    kinds.append(4)
                 for kind in kinds:
                     idx_cases.append(f"({kind}%nat, {li}%nat, {ci}%nat)")
                     back.append((kind, gi, ci))
@@ -626,11 +646,13 @@ def run(run):
         "| 2 => match r with "
         "       | Ok _ => if Lb LFUEL G nt w then true else Lb (Nat.min 18 (length G * (length w + 1) + 2)) G nt w "
         "       | _ => negb (Lb LFUEL G nt w) end "
-        f"| _ => match chart_of {g_bool(flags['fxA'])} FUEL (cgram G START) nt w with "
-        "       | Ok ch => forest_totalb (cgram G START) w ch | Raise _ => true end end")
-    disagreements, spec_fail_coq, forest_fail = [], [], []
+        f"| 3 => match chart_of {g_bool(flags['fxA'])} FUEL (cgram G START) nt w with "
+        "       | Ok ch => forest_totalb (cgram G START) w ch | Raise _ => true end "
+        "| _ => let G' := match mode with 2 => specialise G nt | _ => G end in "
+        "       acyclicb (cgram G' START) && Nat.leb (fuel_bound (cgram G' START) (length w)) FUEL end")
+    disagreements, spec_fail_coq, forest_fail, guard_fail = [], [], [], []
     try:
-        bad, dt = lib.coq_run_shards("c10", "Earley EarleyTrees", ok_def, shards)
+        bad, dt = lib.coq_run_shards("c10", "Earley EarleyTrees EarleyFuel EarleyAcyclic", ok_def, shards)
         run.cov["coq_seconds"] = round(dt, 1)
         for (k, i) in bad:
             kind, gi, ci = shard_idx[k][i]
@@ -638,7 +660,8 @@ def run(run):
             mode, nt, w, o = cases[ci]
             rec = {"grammar": g, "mode": mode, "nonterminal": nt, "input": w,
                    "impl": [o[0], [jt(t) for t in o[1]] if o[0] == "ok" else o[1]], "_cg": cg, "_o": o}
-            (disagreements if kind == 0 else forest_fail if kind == 3 else spec_fail_coq).append(dict(rec, coq_kind=kind))
+            (disagreements if kind == 0 else forest_fail if kind == 3 else guard_fail if kind == 4
+             else spec_fail_coq).append(dict(rec, coq_kind=kind))
     except RuntimeError as e:
         run.violation({"kind": "correspondence-not-evaluable", "obligation": "Earley.v cases",
                        "error": str(e)[-2000:]}, found_input=False)
@@ -682,13 +705,31 @@ def run(run):
                        "first": d, "count": len(forest_fail),
                        "obligation": "Props/C10.v C10_parse_sound_partial (hypothesis forest_totalb)"},
                       found_input=False)
+    # hypotheses of C10_parse_complete / C10_parse_total on the cases of the run: a false guard is expected only
+    # for a grammar with a cyclic unit/nullable derivation (corpus witnesses) or a capped fuel
+    hist["theorem_guard_evaluated"] = sum(len(gc) for gc in guard_case)
+    guard_unexplained = []
+    for d in guard_fail:
+        eff = specialised(d["_cg"], d["nonterminal"]) if d["mode"] == 2 else d["_cg"]
+        n_max = max(len(c[2]) for c in next(m[2] for m in smeta if m[1] is d["_cg"]))
+        if infinitely_ambiguous(eff) or fuel_uncapped(d["_cg"], n_max) > FUEL_CAP:
+            hist["theorem_guard_false_cyclic_or_capped"] += 1
+        else:
+            guard_unexplained.append({k: v for k, v in d.items() if not k.startswith("_")})
+    if guard_unexplained:
+        run.violation({"kind": "guard acyclicb / fuel_bound of C10_parse_complete is false on a case that the harness "
+                               "considers acyclic and sufficiently fuelled",
+                       "first": guard_unexplained[0], "count": len(guard_unexplained),
+                       "obligation": "Props/C10.v C10_parse_complete (acyclicb <-> harness filter infinitely_ambiguous; "
+                                     "C10_harness_fuel_ok)"}, found_input=False)
     if not proof_ok:
         run.violation({"kind": "proof obligation failed", "problems": run.proof_problems,
                        "obligation": "Props/C10.v"}, found_input=False)
     run.cov["trusted_base"] = lib.TRUSTED_BASE_COMMON + [
         "grammars are passed to the model in canonical form as computed by isla.parser.canonical (regex split not modelled)",
         "python reference recogniser (least fixpoint over (A,i,j)) as membership oracle; Coq Lb (proved sound) cross-checks it on all strings of length <= 2",
-        "model fuel computed by the harness (item-count bound); an out-of-fuel answer of the model would show up as a disagreement",
+        "model fuel computed by the harness (item-count bound, proved >= fuel_bound: C10_harness_fuel_ok; capped at 4500, "
+        "capped grammars are counted in the histogram); an out-of-fuel answer of the model would show up as a disagreement",
         "DerivationTree.from_parse_tree / to_parse_tree are structure-preserving (ISLaSolver.parse results compared as parse trees)"]
     run.cov["exhaustive"] = True
     run.cov["exhaustive_scope"] = (f"per grammar: all strings of length <= {N} (separator-list grammars: <= 5) over the grammar's "
